@@ -2913,7 +2913,7 @@ impl Reference
 			take_address = false;
 			coerced_type = None;
 		}
-		else if self.address_depth > 0
+		else if self.address_depth as usize == 1 + current_type.pointer_depth()
 			&& Some(&current_type) == target_type.get_pointee_type().as_ref()
 		{
 			take_address = true;
